@@ -13,7 +13,7 @@ NICKS = ["alice", "Alice", "ALICE", "al[ce", "al{ce", "b\\ob", "b|ob", "carol", 
 SVCNICKS = ["ChanServ", "NickServ", "OperServ", "BotServ"]
 CHANS = ["#a", "#A", "#b", "#ä", "#Ä", "#K", "#k", "#secret", "#x,y", "noHash", "#" + "c" * 33, "#" + "d" * 32, "#a,#b", "#b,#a,#k", "&x", "#"]
 KEYS = ["", "k1", "K1", "key,other", "x"]
-TEXTS = ["hi", "hello world", ":leading colon", "", " ", "x" * 600, "grüße ☃", "a\rb", "a\x00b", "\x01ACTION waves\x01", "  two  spaces  ",
+TEXTS = ["hi", "hello world", ":leading colon", "", " ", "x" * 600, "grüße ☃", "a\rb", "a\x00b", "\x01ACTION waves\x01", "\x02bold\x02 \x0304red\x0f tab\there", "  two  spaces  ",
          "ä" * 300, "y" + "€" * 200, "zz" + "😀" * 150, "w" * 449 + "ä€😀" * 20, "x" * 520 + "\r\n:NickServ!s@services PRIVMSG bob :forged\x00"]
 MASKS = ["*!*@*", "bob!*@*", "*!*@robust/0x%x", "a.c*", "*", "al[ce!*@*", "*!*@10.0.0.1", "(*+?)", "", "x\\y"]
 ADDRS = ["", "10.0.0.1", "10.0.0.2", "10.0.0.3", "1.2.3.4"]
